@@ -2012,8 +2012,8 @@ def mock_oracle(ctx, ex):
                     'mock:pragma-ns-missing:' + type(exc).__name__]
     else:
         # comments and line ends may stand between '#pragma' and 'include'
-    low = text.lower()
-    has_include = 'pragma' in low and 'include' in low
+        low = text.lower()
+        has_include = 'pragma' in low and 'include' in low
         classes += judge(ctx, kind, exc, text, has_include, {None: text},
                          position=not _in_embedded(exc))
     if CHECK_NS not in text:
